@@ -625,6 +625,17 @@ def offsetsReport (h : Hdr) (info : Info) : Nat × Nat × List (Nat × Nat) :=
   (info.xsz, if h.vars.length = 0 then info.xsz else info.beginVar,
    (h.vars.zip info.shapes).map (fun (v, sh) => (v.begin, v.begin + dsizes0 sh * v.xtype.size)))
 
+/-- `ncoffsets -r`: (start, end) of every record of a record variable: `var_begin += ncp->recsize; var_end += ncp->recsize`
+    from `(begin, begin + type_size * dsizes[0])`, `numrecs` times.  `recsize` is what ncmpii_NC_computeshapes leaves in
+    ncp->recsize (same text as the library's compute_var_shape: the sum of the padded record lengths, or the UNPADDED size
+    when there is exactly one record variable — `Header.cvsRec`). -/
+def offsetsRecs (v : Var) (sh : List Nat) (recsize numrecs : Nat) : List (Nat × Nat) :=
+  (List.range numrecs).map (fun r => (v.begin + recsize * r, v.begin + dsizes0 sh * v.xtype.size + recsize * r))
+
+/-- `ncoffsets -g` for a variable that has a predecessor of its kind: begin minus the predecessor's unpadded end -/
+def offsetsGap (v prev : Var) (prevShape : List Nat) : Int :=
+  (v.begin : Int) - ((prev.begin : Int) + (dsizes0 prevShape * prev.xtype.size : Nat))
+
 /-! ## 4. ncmpidiff on several processes: which part of a variable each rank compares -/
 
 /-- ncmpidiff.c main(), "calculate read amount of this process": the block of rank `r` along the partitioned
